@@ -1142,6 +1142,10 @@ func (e *Evaluator) evalPatternRules(patternRules []*Rule) error {
 }
 
 func (e *Evaluator) GetRootJson() (string, error) {
+	if e.root == nil {
+		// no input value was processed (empty input, or exit in BEGIN)
+		return "", fmt.Errorf("there is no JSON value to write")
+	}
 	val, err := e.root.Value.ToGoValue()
 	if err != nil {
 		return "", err
